@@ -12,6 +12,7 @@ EXPLANATION = (
     "cancelled before intervals are taken). R07-fingerprint-nonzero: CuckooFilter::fingerprint returns 1 + (h % M) with "
     "M = 2^l - 1 (u64::MAX when l = 64): in [1, 2^l - 1], never the free-slot marker, never wider than a slot. R07-divisor-nonzero: "
     "every % by the iterator's m is listed with its discharge."
+    " R07-double-hashing: iter_for reduces both base hashes (IV 0 and 1) modulo m, next() yields (h1 + i*h2 + f(i)) mod m, f has k entries modulo m. The cuckoo `accepts n inserts without Full` clause presupposes relocation to the alternate bucket: C01's kick-loop typestate rule is applied."
 )
 NOT_DECIDED = "every frequency statement (false-positive rates, len() accuracy, cuckoo load without Full): distributions over hashers and keys"
 ASSUMPTIONS = ["real-number semantics for f64 (rounding ignored)", "`x as usize` truncates and saturates"]
